@@ -146,7 +146,7 @@ let rec p_entries (l : string list) = match l with
   | t :: i :: p :: rest -> ((n_of_string t, n_of_string i), bytes_of_hex p) :: p_entries rest
   | _ -> failwith "bad entries"
 
-type xop = Op of op | Disk | Resident | Dump  (* K: directory; H: resident cache entries; W: dump of all records *)
+type xop = Op of op | Disk | Resident | Dump | SnapTake | SnapIter  (* K: directory; H: resident; W: dump; DS/DI: snapshot *)
 
 let p_op (s : string) : xop = match toks s with
   | ["V"; t; n] -> Op (OW (OVote (n_of_string t, n_of_string n)))
@@ -167,6 +167,8 @@ let p_op (s : string) : xop = match toks s with
   | ["K"] -> Disk
   | ["H"] -> Resident
   | ["W"] -> Dump
+  | ["DS"] -> SnapTake
+  | ["DI"] -> SnapIter
   | _ -> failwith ("bad op: " ^ s)
 
 let split_on (sep : char) (s : string) : string list =
@@ -176,13 +178,24 @@ let split_on (sep : char) (s : string) : string list =
 let run_xops (y0 : sys option) (first : string list) (ops : xop list) : string =
   let out = ref (List.rev first) in
   let y = ref y0 in
+  let snap = ref None in
+  let grave = ref [] in      (* last known content of every file ever seen *)
   (try
      List.iter (fun xo ->
          match !y with
          | None -> raise Exit
          | Some yy ->
+           grave := yy.y_disk @ List.filter (fun f -> not (List.exists (fun g -> g.f_id = f.f_id) yy.y_disk)) !grave;
            (match xo with
             | Disk -> out := str_disk yy.y_disk :: !out
+            | SnapTake -> snap := Some yy.y_core; out := "unit" :: !out
+            | SnapIter ->
+              (* the snapshot's own copy of index, cache and closed chunks; the files as they are now *)
+              (* the snapshot holds open descriptors: files unlinked since are still readable *)
+              let present = List.map (fun f -> f.f_id) yy.y_disk in
+              let d = yy.y_disk @ List.filter (fun f -> not (List.mem f.f_id present)) !grave in
+              let items = (match !snap with Some k -> do_dump_iter k d | None -> []) in
+              out := str_result (ResRead items) :: !out
             | Dump ->
               (* RefDump: closed chunks then the open chunk, each file scanned from the start *)
               let k = yy.y_core in
@@ -249,7 +262,7 @@ let do_spec (rest : string) : string =
     let s = ref spec0 in
     let outs = List.map (fun xo ->
         match xo with
-        | Disk | Resident | Dump -> "-"
+        | Disk | Resident | Dump | SnapTake | SnapIter -> "-"
         | Op (OW w) ->
           (match w with
            | OUpdateState _ -> "unsupported"
@@ -457,7 +470,7 @@ let replay_all (z0 : sys2) (evs : (int * string) list) : string =
            end
            else if starts_with e "c call " then begin
              match p_op (after e "c call ") with
-             | Disk | Resident | Dump -> fail "unsupported op in trace"
+             | Disk | Resident | Dump | SnapTake | SnapIter -> fail "unsupported op in trace"
              | Op o ->
                List.concat_map (fun (z, _) ->
                    match zstep z (ZCall o) with
